@@ -29,6 +29,7 @@ type FloatV struct {
 	F     float64
 	Tok   *smt.Term // opaque token (Int sort) when !Conc
 	Prov  *Prov
+	Bits  int // 32: the value is representable as a float32 (0/64: not known to be)
 }
 
 // OpaqueV: a value of a type the engine does not look into (time.Time, etc).
@@ -250,6 +251,27 @@ func describe(v Value) string {
 			ps = append(ps, describe(f))
 		}
 		return "{" + strings.Join(ps, ",") + "}"
+	case OpaqueV:
+		return "opaque(" + x.Tok.String() + ")"
+	case FloatV:
+		if x.Conc {
+			return fmt.Sprintf("float(%v)", x.F)
+		}
+		return "float(" + x.Tok.String() + ")"
+	case BytesV:
+		return "bytes(" + x.S.String() + ")"
+	case SliceV:
+		if x.Arr == nil {
+			return "nilslice"
+		}
+		return fmt.Sprintf("slice(obj%d,%d,%d)", x.Arr.ID, x.Off, x.Len)
+	case MapV:
+		if x.M == nil {
+			return "nilmap"
+		}
+		return fmt.Sprintf("map#%d", x.M.ID)
+	case JVal:
+		return fmt.Sprintf("json#%p", x.J)
 	}
-	return fmt.Sprintf("%T", v)
+	return fmt.Sprintf("%T:%v", v, v)
 }
